@@ -125,6 +125,14 @@ def sessionLine (s : St) (ts : List String) : Option (St × String) :=
     | none => some (s, "bad-op")
   | _ =>
     match parseOp ts with
+    | some .getOffsets =>
+      -- besides `GetOffsets()` the harness re-reads the offset of every context it still holds:
+      -- in the model contexts are immutable values (`C06.ctx_immutable`), so this is the state's `ctxs`
+      let (s', o) := step s .getOffsets
+      let idx := (List.range s'.ctxs.length).zip s'.ctxs
+      let cur := idx.filter fun (_, p) => p.sess == s'.sess
+      let extra := cur.map fun (i, p) => s!"ctx {i} {p.vb} {showOffset p.off}"
+      some (s', join ([showObsvs o] ++ extra) " ; ")
     | some op => let (s', o) := step s op; some (s', showObsvs o)
     | none => none
 
